@@ -17,7 +17,7 @@ func c11Exec(sc c11Scenario, f c11Fault, hold bool, hang time.Duration) *c11Obs 
 	o := &c11Obs{calls: make([]int, sc.n), callLat: make([]time.Duration, sc.n), subClosed: make([]bool, sc.m),
 		subRead: make([]int, sc.m), subEarly: make([]bool, sc.m), cbEarly: make([]bool, sc.d), cbCount: make([]int, sc.d),
 		replied: make([]bool, sc.n), early: make([]bool, sc.n), payloadOK: make([]bool, sc.n)}
-	r := &c11Runner{sc: sc, f: f, hold: hold, hang: hang, obs: o, nextID: 1,
+	r := &c11Runner{sc: sc, f: f, hold: hold, hang: hang, full: hang, obs: o, nextID: 1,
 		callRes: make([]chan c11CallRes, sc.n), callGot: make([]*c11CallRes, sc.n), callID: make([]uint32, sc.n),
 		started: make([]bool, sc.n), held: make([]bool, sc.n), wrote: make([]bool, sc.n),
 		subEv: make([]chan []byte, sc.m), subReg: make([]bool, sc.m), cbReg: make([]bool, sc.d), cb: make([]int32, sc.d)}
@@ -134,6 +134,7 @@ func (r *c11Runner) step(pos int, step c11Step) {
 
 func (r *c11Runner) finish() {
 	o := r.obs
+	full := r.full
 	r.st.mu.Lock()
 	r.st.holdCl = false
 	r.st.mu.Unlock()
@@ -175,6 +176,7 @@ func (r *c11Runner) finish() {
 				}
 				o.subRead[i]++
 			case <-end:
+				r.missed()
 				break loop
 			}
 		}
@@ -182,7 +184,9 @@ func (r *c11Runner) finish() {
 	for j := range r.cbReg {
 		if r.cbReg[j] {
 			jj := j
-			r.st.poll(r.hang, func() bool { return atomic.LoadInt32(&r.cb[jj]) >= 1 })
+			if !r.st.poll(r.hang, func() bool { return atomic.LoadInt32(&r.cb[jj]) >= 1 }) {
+				r.missed()
+			}
 		}
 	}
 	time.Sleep(500 * time.Microsecond)
@@ -202,7 +206,7 @@ func (r *c11Runner) finish() {
 		}
 		switch {
 		case o.calls[c] == 3:
-			r.failf("call %d did not return within %v after the connection was lost", c, r.hang)
+			r.failf("call %d did not return within %v after the connection was lost", c, full)
 		case o.replied[c] && r.wrote[c] && o.calls[c] != 1:
 			r.failf("call %d: its reply was delivered (early=%v) and its send succeeded, yet it returned an error", c, o.early[c])
 		case o.replied[c] && r.wrote[c] && !o.payloadOK[c]:
@@ -213,7 +217,7 @@ func (r *c11Runner) finish() {
 	}
 	for i := range o.subEarly {
 		if o.subEarly[i] && !o.subClosed[i] {
-			r.failf("subscription %d: events channel not closed within %v after the connection was lost", i, r.hang)
+			r.failf("subscription %d: events channel not closed within %v after the connection was lost", i, full)
 		}
 	}
 	for j := range o.cbCount {
